@@ -89,6 +89,10 @@ pub struct Cfg {
     /// the last slots, both ends of every level, quartiles, first/middle/last map slot) instead of
     /// at every item, and position-quadratic families are restricted to those targets
     pub large: bool,
+    /// leave out the families added for breadth (long batches with repeated items, nth steps and
+    /// hand-advanced for_each in iter_mut): used by the fault layer on deep seeds in the quick tier,
+    /// where every callback of every operation is a crash point
+    pub lean: bool,
 }
 
 impl Cfg {
@@ -336,7 +340,7 @@ pub fn gen_ops(cfg: &Cfg, double: bool, m: &Model, back_offered: bool, out: &mut
             out.push(Op::IterMutForEach { writes: (0..n).map(|i| Some(if i % 2 == 0 { hi as i32 } else { lo as i32 })).collect(), pre: vec![], rev: false });
         }
         // for_each / rev().for_each after the iterator was advanced by hand (from either end)
-        {
+        if !cfg.lean {
             let mut pres: Vec<Vec<bool>> = vec![vec![false], vec![false, false]];
             if back_offered && a & A_ITER_MUT_BACK != 0 {
                 pres.extend([vec![true], vec![false, true], vec![true, false], vec![true, true], vec![false, true, false]]);
@@ -388,7 +392,7 @@ pub fn gen_ops(cfg: &Cfg, double: bool, m: &Model, back_offered: bool, out: &mut
                         }
                     }
                 }
-                if n >= 2 {
+                if n >= 2 && !cfg.lean {
                     // nth / nth_back: one call of next (writing), then nth(k) writing; and nth(k) first
                     let lo = *cfg.prios.iter().min().unwrap();
                     let hi = *cfg.prios.iter().max().unwrap();
@@ -456,7 +460,7 @@ pub fn gen_ops(cfg: &Cfg, double: bool, m: &Model, back_offered: bool, out: &mut
         s2.push((cfg.k - 1, 100, hi));
         seqs.push(s2);
         // long batches naming the same items several times with different priorities (the last decides)
-        for len in [24u32, 48] {
+        for len in if cfg.lean { vec![] } else { vec![24u32, 48] } {
             seqs.push((0..len).map(|i| (cfg.k - 1 + (i % 8), 100, cfg.prios[(i as usize * 7 + 1) % cfg.prios.len()])).collect());
             if n > 0 {
                 seqs.push((0..len as usize).map(|i| (present[(i * 3) % n.min(5)], 100, cfg.prios[(i * 5 + 2) % cfg.prios.len()])).collect());
